@@ -25,6 +25,13 @@ for attempt in range(3):
   msg = not_fixed_point(tv_designs.get(%(name)r), %(group)r, %(state)r)
   if msg: reproduced(%(name)r + ": " + msg)
 '''
+REPLAY_EXPL = '''
+sys.path.insert(0, '/verif')
+from vlib.schedreplay import explicit_order_violated
+from corpus import tv_designs
+msg = explicit_order_violated(tv_designs.get(%(name)r), %(group)r, %(first)r, %(second)r)
+if msg: reproduced(%(name)r + ": " + msg)
+'''
 REPLAY_ORDER = '''
 sys.path.insert(0, '/verif')
 from vlib.schedreplay import order_dependence
@@ -156,8 +163,12 @@ def item_dep(it):
       res['discharged'] += 1; return
     # a state on which the wrong order is observable
     wk, rk = None, None
+    expl = None
     for w_, r_, cell in need:
-      if w_ in pos and r_ in pos and not pos[w_][0] < pos[r_][0]: wk, rk = w_, r_; break
+      if w_ in pos and r_ in pos and not pos[w_][0] < pos[r_][0]:
+        wk, rk = w_, r_
+        if cell == '<explicit constraint>': expl = (w_, r_)
+        break
     state = {n: 0 for n in sc.names}
     if wk is not None:
       A = next(b for b in sc.blks if keys[b] == wk); B = next(b for b in sc.blks if keys[b] == rk)
@@ -166,7 +177,9 @@ def item_dep(it):
       if sv.check() == z3.sat:
         m = sv.model(); state = {n: m.eval(v, model_completion=True).as_long() for n, v in sc.V.items()}
     legal = [keys[b] for b in top._sched.update_schedule if b in keys]
-    if group is None:
+    if group is not None and expl is not None:
+      rp = REPLAY_EXPL % dict(name=name, group=group, first=expl[0], second=expl[1])
+    elif group is None:
       rp = REPLAY_ORDER % dict(name=name, state=state, oa=legal, ob=order)
     else:
       rp = REPLAY_FP % dict(name=name, group=group, state=state)
